@@ -140,6 +140,17 @@ pub fn stream_verdict(sigs: &[Sig], st: &mut FlowState, seg: &[u8], ctx: &AppCtx
     if st.muddled {
         return AppVerdict::Unspecified("flow state unspecified".into());
     }
+    if let Some(p) = st.per_message {
+        // message-per-segment protocol: this segment is a message of the identified protocol
+        if seg.is_empty() {
+            return AppVerdict::Silent("C11", "empty-segment");
+        }
+        let v = message_verdict(p, seg, ctx, false);
+        if let AppVerdict::Unspecified(_) = v {
+            st.muddled = true;
+        }
+        return v;
+    }
     if st.answered {
         return AppVerdict::Unspecified("segment after the first answered request".into());
     }
@@ -179,9 +190,16 @@ pub fn stream_verdict(sigs: &[Sig], st: &mut FlowState, seg: &[u8], ctx: &AppCtx
                 if before == 0 {
                     let v = message_verdict(p, seg, ctx, false);
                     match &v {
-                        AppVerdict::Answer(_) => st.answered = true,
+                        AppVerdict::Answer(_) => {
+                            st.answered = true;
+                            if matches!(p, Proto::Ssh | Proto::Stun | Proto::Ghost | Proto::Smb1 | Proto::Smb2) {
+                                st.per_message = Some(p);
+                            }
+                        }
                         AppVerdict::Unspecified(_) => st.muddled = true,
-                        _ => {}
+                        // a first segment that was not answered leaves the flow in a state the
+                        // statements do not describe (partial message)
+                        _ => st.muddled = true,
                     }
                     v
                 } else {
